@@ -133,7 +133,7 @@ def scope_and_protected(asb):
 
 
 def verify_bib(bundle, bib_blk, keys):
-    ''' Independent verification of a BIB with COSE_Mac0 / COSE_Mac results.
+    ''' Independent verification of a BIB with COSE_Mac0 / COSE_Mac / COSE_Sign1 results.
     keys: {kid bytes: key bytes}. Returns list of per-target booleans. '''
     asb = parse_asb(bib_blk['btsd'])
     (scope, addl) = scope_and_protected(asb)
@@ -165,8 +165,48 @@ def verify_bib(bundle, bib_blk, keys):
                         continue
                     if hmac.compare_digest(mac_tag(cek, alg, prot, aad, tgt[0]['btsd']), tag):
                         okay = True
+            elif rid == COSE_SIGN1:
+                okay = _verify_sign1(msg, asb, aad, tgt[0]['btsd'], keys)
         out.append(okay)
     return out
+
+
+def _verify_sign1(msg, asb, aad, payload, keys):
+    ''' COSE_Sign1 with ES256/384/512 (RFC 9052 4.4); the public key is that of the first certificate of the x5chain
+    (header parameter 33) carried in the additional unprotected parameters of the security block, or ``keys[b'x5chain']``. '''
+    from cryptography import x509
+    from cryptography.exceptions import InvalidSignature
+    from cryptography.hazmat.primitives import hashes
+    from cryptography.hazmat.primitives.asymmetric import ec
+    from cryptography.hazmat.primitives.asymmetric.utils import encode_dss_signature
+    (prot, unprot, _pay, sig) = msg
+    alg = cbor2.loads(prot).get(1)
+    hashcls = {-7: hashes.SHA256, -35: hashes.SHA384, -36: hashes.SHA512}.get(alg)
+    chain = None
+    for (pid, val) in asb['params']:
+        if pid == 4:
+            # additional unprotected parameters: a header map, carried as an encoded byte string
+            try:
+                hmap = cbor2.loads(val) if isinstance(val, (bytes, bytearray)) else val
+            except Exception:  # pylint: disable=broad-except
+                hmap = None
+            if isinstance(hmap, dict) and 33 in hmap:
+                chain = hmap[33]
+    if isinstance(unprot, dict) and 33 in unprot:
+        chain = unprot[33]
+    if chain is None:
+        chain = keys.get(b'x5chain')
+    if hashcls is None or chain is None or len(sig) % 2:
+        return False
+    der = chain if isinstance(chain, bytes) else chain[0]
+    try:
+        pub = x509.load_der_x509_certificate(bytes(der)).public_key()
+        half = len(sig) // 2
+        structure = cbor2.dumps(['Signature1', bytes(prot), bytes(aad), bytes(payload)])
+        pub.verify(encode_dss_signature(int.from_bytes(sig[:half], 'big'), int.from_bytes(sig[half:], 'big')), structure, ec.ECDSA(hashcls()))
+        return True
+    except (InvalidSignature, ValueError, TypeError):
+        return False
 
 
 def make_bib(pri, target_blk, key, kid, num, alg=5, scope=None, source='dtn://src/', crc_type=0, flags=0, bundle=None,
